@@ -108,6 +108,11 @@ func c13Faults() []faultForm {
 		{"unexpected-token-own-line", "{{ true ? 1\n\n zzFault }}", true},
 		{"unknown-identifier-own-line", "{{ 1 +\n\nzzFault }}", false},
 		{"unknown-function-own-line", "{{ 5.\n\nzzFault() }}", false},
+		// the offending token is the function name, wherever its argument list ends
+		{"unknown-function-multi-line-args", "{{ 5.zzFault(1,\n2,\n3\n) }}", false},
+		{"unknown-function-multi-line-args", "{{ \"s\".zzFault(\"a\nb\") }}", false},
+		{"unknown-identifier-multi-line-block", "{{ zzFault +\n1\n}}", false},
+		{"division-by-zero-multi-line-block", "{{ 7 / (3 - 3) }}{{-- zzFault --}}{{ 1 +\n2 }}", false},
 		{"illegal-character-own-line", "{{ 1 +\n\n# }}{{-- zzFault --}}", true},
 	}
 }
@@ -345,9 +350,9 @@ func TestC13_Trees(t *testing.T) {
 				ff = faultForm{"unknown-identifier", "{{ zzFault }}", false}
 				cs.Fault = ff.kind
 			}
-			expr := strings.TrimSuffix(strings.TrimPrefix(ff.src, "{{ "), " }}")
-			if i := strings.Index(expr, " }}"); i >= 0 {
-				expr = expr[:i]
+			expr := ff.src
+			if i := strings.Index(expr, "}}"); strings.HasPrefix(expr, "{{") && i >= 0 {
+				expr = strings.TrimSpace(expr[2:i])
 			}
 			marker := "zzFault"
 			if !strings.Contains(expr, marker) {
